@@ -115,6 +115,7 @@ func runC02(ctx *Ctx) {
 		ch.QosRulesLen = []int{9, 0, 255, 256, 1000}[c.Pick("QoS-rules-length", 5)]
 		ch.AmbrDL = []int64{1000000000, 0, 139, 4000000000000}[c.Pick("AMBR-DL", 4)]
 		ch.NgKSI = byte(c.Pick("ngKSI", 7))
+		ch.AcceptOpt = uint(c.Pick("accept+5GSM-cause", 2))
 		pi := n2imsis[c.Pick("imsi/plmn", len(n2imsis))]
 		emu.IMSI, emu.MCC, emu.MNC = pi.imsi, pi.mcc, pi.mnc
 		acfg.IMSI, acfg.MCC, acfg.MNC = pi.imsi, pi.mcc, pi.mnc
@@ -151,7 +152,7 @@ func c02inProcess(ctx *Ctx) {
 	for _, ip := range c02ips {
 		for _, teid := range c02teids {
 			for _, upf := range c02ips {
-				for _, q := range []int{9, 300} {
+				for _, q := range []int{9, 300, -9} {
 					item++
 					if !ctx.Mine(item) {
 						continue
@@ -161,6 +162,9 @@ func c02inProcess(ctx *Ctx) {
 					emu := n2.DefaultEmuConfig()
 					_, acfg := n2config(explore.Replay(nil))
 					ch := refamf.DefaultChoices()
+					if q < 0 { // the accept carries the 5GSM cause IE in front of the PDU address
+						ch.AcceptOpt, q = 1, -q
+					}
 					ch.UEIP, ch.TEID, ch.UPFIP, ch.QosRulesLen = [][]byte{ip}, [][]byte{teid}, [][]byte{upf}, q
 					a := refamf.New(acfg, ch, codec)
 					fds, err := syscall.Socketpair(syscall.AF_UNIX, syscall.SOCK_SEQPACKET, 0)
